@@ -6,9 +6,9 @@
 (*   trans : Seq(<<day, sod, ty>>)  transition instants (UTC, whole       *)
 (*           seconds, non-decreasing) and the 1-based index of the type   *)
 (*           in force from that instant on                                *)
-(*   rule  : 0, or the POSIX rule of the footer / of the TZ string        *)
-(*           [std |-> <<off, abbr>>, dst |-> 0 or                         *)
-(*              [off, ab, start |-> dayspec, end |-> dayspec]]            *)
+(*   rule  : the POSIX rule of the footer / of the TZ string              *)
+(*           [has |-> 0/1, std |-> <<off, abbr>>, hasdst |-> 0/1,         *)
+(*            dst |-> [off, ab, start |-> dayspec, end |-> dayspec]]      *)
 (*           dayspec = [k |-> "J" | "N" | "M", a, b, c, t |-> seconds]    *)
 (* Semantics (RFC 8536 3.2/3.3, as jiff documents): type 0 before the     *)
 (* first transition; the type of the latest transition at or before the   *)
@@ -53,12 +53,12 @@ LatestAtOrBefore(evs, t, i) ==
        IF TLe(evs[i][1], t) THEN LaterEv(rest, evs[i]) ELSE rest
 
 RuleInfoAt(r, t) ==
-  IF r.dst = 0 THEN StdInfo(r)
+  IF r.hasdst = 0 THEN StdInfo(r)
   ELSE LET y == YearOfEpochDay(t[1])
            e == LatestAtOrBefore(RuleEvents(r, y), t, 6)
        IN  IF e[2] = 1 THEN DstInfo(r) ELSE StdInfo(r)
 
-RuleOffsets(r) == IF r = 0 THEN {} ELSE IF r.dst = 0 THEN {r.std[1]} ELSE {r.std[1], r.dst.off}
+RuleOffsets(r) == IF r.has = 0 THEN {} ELSE IF r.hasdst = 0 THEN {r.std[1]} ELSE {r.std[1], r.dst.off}
 
 \* rule transitions (instants where the rule's info really changes) nearest
 \* to t; candidates are the events of years y-1 .. y+1
@@ -92,7 +92,7 @@ TypeInfo(z, k) == z.types[k]
 
 InfoAt(z, t) ==
   LET n == NTrans(z)  i == LastAtOrBefore(z, t) IN
-  IF i = n /\ z.rule # 0 THEN RuleInfoAt(z.rule, t)
+  IF i = n /\ z.rule.has = 1 THEN RuleInfoAt(z.rule, t)
   ELSE IF i = 0 THEN TypeInfo(z, 1)
   ELSE TypeInfo(z, z.trans[i][3])
 
@@ -124,24 +124,32 @@ Classify(z, c) ==
        ELSE <<"m", 0, 0>>
   ELSE <<"m", 0, 0>>
 
-\* offset each strategy uses; "none" when rejected
+NoOffset == 999999
+\* offset each strategy uses; NoOffset when rejected
 StrategyOffset(strategy, cl) ==
   CASE cl[1] = "u" -> cl[2]
     [] cl[1] = "g" -> (CASE strategy = "compatible" -> cl[2] [] strategy = "later" -> cl[2]
-                         [] strategy = "earlier" -> cl[3] [] strategy = "reject" -> "none")
+                         [] strategy = "earlier" -> cl[3] [] strategy = "reject" -> NoOffset)
     [] cl[1] = "f" -> (CASE strategy = "compatible" -> cl[2] [] strategy = "earlier" -> cl[2]
-                         [] strategy = "later" -> cl[3] [] strategy = "reject" -> "none")
+                         [] strategy = "later" -> cl[3] [] strategy = "reject" -> NoOffset)
 
 \* ---- all transitions (C14) ---------------------------------------------------------
-\* next change strictly after t / previous strictly before t, as instants;
-\* <<>> when there is none.  Table transitions are those of the TZif data
-\* (recorded no-op transitions included); from the last table transition on
-\* the rule generates them.
-NextAfter(z, t) ==
-  LET n == NTrans(z)  i == LastAtOrBefore(z, t) IN
-  IF i < n THEN TT(z, i + 1)
-  ELSE IF z.rule = 0 THEN <<>>
-  ELSE RuleNextAfter(z.rule, t)
+\* A *change* is an instant T with InfoAt(T) # InfoAt(T - 1ns).  Changes come
+\* from the recorded table and, from the last table transition on, from the
+\* rule.  A recorded transition that changes nothing (zic writes such no-op
+\* entries) is not a change; an iterator may or may not yield it.
+IsChange(z, T) == InfoAt(z, T) # InfoAt(z, AddNs(T, -1))
+IsTableTime(z, T) == LET i == LastAtOrBefore(z, T) IN i > 0 /\ TT(z, i) = T
+
+RECURSIVE NextRealFrom(_, _, _)
+NextRealFrom(z, j, t) ==
+  LET n == NTrans(z) IN
+  IF j > n
+  THEN IF z.rule.has = 0 THEN <<>>
+       ELSE RuleNextAfter(z.rule, IF n > 0 /\ TLt(t, TT(z, n)) THEN TT(z, n) ELSE t)
+  ELSE IF IsChange(z, TT(z, j)) THEN TT(z, j) ELSE NextRealFrom(z, j + 1, t)
+\* next change strictly after t; <<>> when there is none
+NextChangeAfter(z, t) == NextRealFrom(z, LastAtOrBefore(z, t) + 1, t)
 
 \* index of the latest transition strictly before t
 RECURSIVE BSearchLt(_, _, _, _)
@@ -150,11 +158,14 @@ BSearchLt(z, t, lo, hi) ==
   ELSE LET mid == (lo + hi + 1) \div 2 IN
        IF TLt(TT(z, mid), t) THEN BSearchLt(z, t, mid, hi) ELSE BSearchLt(z, t, lo, mid - 1)
 
-PrevBefore(z, t) ==
-  LET n == NTrans(z)  i == BSearchLt(z, t, 0, n) IN
-  IF z.rule # 0 /\ i = n
+RECURSIVE PrevRealFrom(_, _)
+PrevRealFrom(z, j) ==
+  IF j = 0 THEN <<>> ELSE IF IsChange(z, TT(z, j)) THEN TT(z, j) ELSE PrevRealFrom(z, j - 1)
+\* previous change strictly before t
+PrevChangeBefore(z, t) ==
+  LET n == NTrans(z)  j == BSearchLt(z, t, 0, n) IN
+  IF z.rule.has = 1 /\ j = n
   THEN LET p == RulePrevBefore(z.rule, t) IN
-       IF p # <<>> /\ (n = 0 \/ TLt(TT(z, n), p)) THEN p
-       ELSE IF n = 0 THEN <<>> ELSE TT(z, n)
-  ELSE IF i = 0 THEN <<>> ELSE TT(z, i)
+       IF p # <<>> /\ (n = 0 \/ TLt(TT(z, n), p)) THEN p ELSE PrevRealFrom(z, n)
+  ELSE PrevRealFrom(z, j)
 =======================================================================
